@@ -46,9 +46,9 @@ def _args_to_vars(
         del kwargs['result']
 
     # assign *args to real names
-    for name, param in signature.parameters.items():
-        params[name] = param.default
-    params.update(signature.bind(*args, **kwargs).arguments)
+    bound = signature.bind(*args, **kwargs)
+    bound.apply_defaults()
+    params.update(bound.arguments)
     return params
 
 
